@@ -40,7 +40,7 @@ import datetime
 import json
 
 from harness import core
-from harness.core import coq_list, coq_option
+from harness.core import coq_list
 
 GEN = ['States']
 
@@ -488,8 +488,20 @@ def judge(case, outcome, after, fetches, injected=False):
     return bad
 
 
-def oracle(ctx, case, outcome, after, fetches, injected=False):
-    bad = judge(case, outcome, after, fetches, injected)
+def judge_case(case, outcome, after, fetches):
+    """judge, with the failure-injection scenario folded in: the execution whose delete fails was removed by
+    another engine after the fetch, so its tree is outside what this evaluation is answerable for."""
+    v = case.get('fail_delete_of')
+    if v is None:
+        return judge(case, outcome, after, fetches)
+    gone = closure(case['rows'], [v])
+    rows = [r for r in case['rows'] if r['id'] not in gone]
+    return judge({'rows': rows, 'conf': case['conf']}, outcome, {i: x for i, x in after.items() if i not in gone},
+                 fetches, injected=True)
+
+
+def oracle(ctx, case, outcome, after, fetches):
+    bad = judge_case(case, outcome, after, fetches)
     for sig, what in bad[:3]:
         ctx.fail(sig, what, {'rows': case['rows'], 'conf': case['conf'], 'outcome': outcome,
                              'remaining': sorted(after), 'signature': sig, 'fail_delete_of': case.get('fail_delete_of')})
@@ -676,13 +688,7 @@ def suite_delete_failure(ctx, cases):
         outcome, after, fetches = run_policy(c2)
         ctx.count(tag, json.dumps(c2, sort_keys=True))
         outs[outcome] = outs.get(outcome, 0) + 1
-        oracle(ctx, c2, outcome, after, fetches, injected=True)
-    if outs.get('raise:TypeError'):
-        ctx.notes.append('observation: when a delete fails (row already removed by another engine), the handler in _delete calls '
-                         'traceback.format_exc(e), which itself raises TypeError on Python 3; the evaluation aborts with that TypeError '
-                         '(batch transaction rolled back, trees complete, nothing ineligible deleted) instead of logging and going on; '
-                         'seen %d times. Had the handler swallowed the error, the `while True` loop would refetch the same row forever.'
-                         % outs['raise:TypeError'])
+        oracle(ctx, c2, outcome, after, fetches)
 
 
 def suite_gating(ctx):
@@ -785,11 +791,19 @@ def run(ctx):
                            '(suite, population, config); evaluate non-trivial = something deleted or evaluation raised')
         rng = ctx.rng
         measured_coverage(ctx, lambda: (suite_evaluate(ctx, [dict(c) for c in CORPUS], 'evaluate_corpus'),
-                                        suite_gating(ctx)))
+                                        suite_gating(ctx),
+                                        suite_delete_failure(ctx, [dict(c) for c in CORPUS])))
         suite_evaluate(ctx, [gen_case(rng) for _ in range(ctx.n(2500, 20000))], 'evaluate')
         suite_queries(ctx, [dict(c) for c in CORPUS] + [gen_case(rng) for _ in range(ctx.n(500, 4000))])
         suite_cascade(ctx, [dict(c) for c in CORPUS] + [gen_case(rng) for _ in range(ctx.n(400, 3000))])
-        suite_delete_failure(ctx, [dict(c) for c in CORPUS] + [gen_case(rng) for _ in range(ctx.n(150, 1000))])
+        suite_delete_failure(ctx, [gen_case(rng) for _ in range(ctx.n(150, 1000))])
+        outs = ctx.cov['suites'].get('delete_failure', {}).get('outcomes', {})
+        if outs.get('raise:TypeError'):
+            ctx.notes.append('observation: when a delete fails (row already removed by another engine), the handler in _delete calls '
+                             'traceback.format_exc(e), which itself raises TypeError on Python 3; the evaluation aborts with that TypeError '
+                             '(batch transaction rolled back, trees complete, nothing ineligible deleted) instead of logging and going on; '
+                             'seen %d times. Had the handler swallowed the error, the `while True` loop would refetch the same row forever.'
+                             % outs['raise:TypeError'])
         ev = ctx.cov['suites'].get('evaluate', {})
         if ev.get('F6_unset_age_raises'):
             ctx.notes.append('observation F6: older_than unset -> every evaluation raises TypeError (timedelta(minutes=None)) before any '
@@ -839,7 +853,7 @@ def replay(obj):
             return 1 if set(after) != want else 0
         case = {'rows': r['rows'], 'conf': r['conf'], 'fail_delete_of': r.get('fail_delete_of')}
         outcome, after, fetches = run_policy(case)
-        bad = judge(case, outcome, after, fetches, injected=case['fail_delete_of'] is not None)
+        bad = judge_case(case, outcome, after, fetches)
         print('config %r\npopulation %s\noutcome %s, remaining rows %s' % (r['conf'], json.dumps(r['rows']), outcome, sorted(after)))
         for sig, what in bad:
             print('  violates: [%s] %s' % (sig, what))
